@@ -76,7 +76,13 @@ func run(c *vk.Ctx, sc scenario, idx int) {
 	r, err := rig.NewStepRig(rig.StepCfg{Role: sc.role, HeartBtInt: hbInt, Limits: lims, CloseTimeout: sc.closeTO,
 		AfterRun: func(h *simplefixgo.DefaultHandler, s *session.Session) {
 			if sc.appEvent {
-				s.OnChangeState(utils.EventLogout, func() bool { atomic.AddInt32(&appLogout, 1); return true })
+				// the application's logout callback looks at the session, as a re-logon policy would
+				s.OnChangeState(utils.EventLogout, func() bool {
+					_ = s.IsLogged()
+					_ = s.Context().Err()
+					atomic.AddInt32(&appLogout, 1)
+					return true
+				})
 			}
 		}})
 	if err != nil {
@@ -145,7 +151,13 @@ func run(c *vk.Ctx, sc scenario, idx int) {
 		evBefore := len(r.AllEvents())
 		res = r.Inbound(p.Logout())
 		if res.TimedOut {
-			c.Inconclusive("watchdog: " + desc)
+			if time.Duration(atomic.LoadInt64(&maxJitter)) > 100*time.Millisecond {
+				c.Inconclusive("watchdog: " + desc)
+				return
+			}
+			// a step that takes microseconds did not finish in 5 s on a quiet machine: the handler loop is stuck while
+			// serving the peer's answer, so the logout is never signalled
+			c.Violate("C15/peer-answer-to-own-logout-never-finishes-being-served/"+sc.role.String(), fmt.Sprintf("%s: 5 s after the peer's Logout answer was handed to the session the handler loop had not finished serving it (state lock held: %v; application's EventLogout handler ran %d times)", desc, res.StateLocked, atomic.LoadInt32(&appLogout)), replay)
 			return
 		}
 		c.Count("logouts_counted", int64(count(res.Outs, "5")))
